@@ -31,8 +31,8 @@ func c19CheckQuote(s string) string {
 
 func TestVerifC19(t *testing.T) {
 	c := mc.NewCheck("C19")
-	syms := []string{"a", ":", " ", "\t", "\"", "\\", "b"}
-	maxLen := mc.Pick(c, 7, 8)
+	syms := []string{"a", ":", " ", "\t", "\"", "\\", "b", "\u00a0", "\f"}
+	maxLen := mc.Pick(c, 6, 7)
 	replay := func(raw json.RawMessage) string {
 		var s string
 		json.Unmarshal(raw, &s)
